@@ -229,3 +229,35 @@ pub fn c19_indexopt_reserve_in_every_mode() {
     indexopt_reserve_free(&[0, 3, 6, 6, 6], 6);
     cover!(true, "end reached");
 }
+
+// @h prop=C19 tier=quick kind=proof inst="IndexOptimized::with_capacity and FlatStack::with_capacity over dense indices" bounds="with_capacity(4), then 0,3,6,6 resp. three copies of symbolic bytes" desc="a capacity hint does not make a stride-representable sequence hold heap (used and capacity 0)"
+#[cfg_attr(kani, kani::proof, kani::unwind(8))]
+pub fn c19_with_capacity_is_free() {
+    let mut c = <IndexOptimized<Vec<u32>, Vec<u64>> as Storage<usize>>::with_capacity(4);
+    let (u, cap) = used_cap(&c);
+    assert!(u == 0 && cap == 0, "C19: an empty container built with a capacity hint holds heap");
+    for v in [0usize, 3, 6, 6] {
+        c.push(v);
+    }
+    let (u, cap) = used_cap(&c);
+    assert!(u == 0 && cap == 0, "C19: a stride-representable sequence occupies heap in a container built with a capacity hint");
+    let items = [Bytes::<3>::any_len(2), Bytes::<3>::any_len(1), Bytes::<3>::any_len(3)];
+    let mut fs = FlatStack::<Cip, IndexOptimized>::with_capacity(4);
+    let mut twin = Cip::default();
+    for b in items.iter() {
+        fs.copy(b.as_slice());
+        let _ = twin.push(b.as_slice());
+    }
+    let mut region_pairs = 0usize;
+    twin.heap_size(|_, _| region_pairs += 1);
+    let (mut k, mut own) = (0usize, 0usize);
+    fs.heap_size(|u, c| {
+        if k >= region_pairs {
+            own += u + c;
+        }
+        k += 1;
+    });
+    assert!(k > region_pairs && own == 0, "C19: FlatStack::with_capacity made a dense-index stack spend heap on its own indices");
+    cover!(true, "end reached");
+    sym::forget((c, fs, twin));
+}
